@@ -199,9 +199,10 @@ func runChildSide(f lib.Flags, res *lib.Result, key string) {
 		for q := 0; q < sessionsOf(f); q++ {
 			exec(t, sessionID{Kind: "triple", Triple: t.key(), Seed: f.Seed, Seq: q, Steps: stepsOf(q)})
 		}
-		if gatedRows[t.Row.rowKey()] != nil {
+		if gatedRows[t.Row.rowKey()] != nil || rowNames[t.Row.rowKey()] != nil {
 			// a router creating its clients on first use: the register sessions above each start with the forced
-			// first-use overlap; everything else about these servers is driven on their plain rows
+			// first-use overlap; everything else about these servers is driven on their plain rows. Likewise rows whose
+			// router knows the device under several names: the register sessions above name it differently per request
 			continue
 		}
 		// every read-mask path of the resource's descriptor (exhaustive below 3 levels up to the step budget)
@@ -321,6 +322,10 @@ func runChild(f lib.Flags, key string, extra ...string) (*lib.Result, *progress,
 }
 
 func run(f lib.Flags, res *lib.Result) {
+	if os.Getenv("C14_DEV_ONLY") == "spell" { // development aid: only the spelled-ids tie
+		runSpellTie(f, res)
+		return
+	}
 	tie := res.Tie("register-acceptor", "K1", tieRule)
 	mon := res.Monitor("read-your-writes", monRule)
 	triples, services, err := allTriples()
@@ -336,17 +341,39 @@ func run(f lib.Flags, res *lib.Result) {
 	outs := make([]out, len(triples))
 	sem := make(chan struct{}, 4)
 	var wg sync.WaitGroup
+	// the children that take longest (tween scenarios wait for real animations) are started first; results are
+	// collected by index, so the order of starting them changes nothing else
+	var order []int
 	for i, t := range triples {
+		if t.update != nil && tweenField(t.resource) != nil {
+			order = append(order, i)
+		}
+	}
+	for i, t := range triples {
+		if !(t.update != nil && tweenField(t.resource) != nil) {
+			order = append(order, i)
+		}
+	}
+	// the ties that run in this process (they need no server row) run while the children work
+	sideDone := make(chan struct{})
+	go func() {
+		defer close(sideDone)
+		runRemovePrefix(f, res)
+		runGauTie(f, res)
+		runSpellTie(f, res)
+	}()
+	for _, i := range order {
 		wg.Add(1)
+		sem <- struct{}{}
 		go func(i int, key string) {
 			defer wg.Done()
-			sem <- struct{}{}
 			defer func() { <-sem }()
 			r, p, crash := runChild(f, key)
 			outs[i] = out{r, p, crash}
-		}(i, t.key())
+		}(i, triples[i].key())
 	}
 	wg.Wait()
+	<-sideDone
 	var tnames []string
 	var allUnconfirmed []any
 	for i, t := range triples {
@@ -409,8 +436,6 @@ func run(f lib.Flags, res *lib.Result) {
 	for k, v := range mon.Distribution {
 		tie.Distribution[k] = v
 	}
-	runRemovePrefix(f, res)
-	runGauTie(f, res)
 	res.Extra["triples"] = tnames
 	if len(allUnconfirmed) > 8 {
 		allUnconfirmed = allUnconfirmed[:8]
@@ -454,6 +479,9 @@ func replay(f lib.Flags) int {
 	}
 	if in["kind"] == "gau" {
 		return replayGau(in)
+	}
+	if in["kind"] == "spell" {
+		return replaySpell(in)
 	}
 	var sid sessionID
 	if err := json.Unmarshal(b, &sid); err != nil || sessionKinds[sid.Kind] == nil {
